@@ -13,7 +13,7 @@
       [ack_ranges_ok]           descending, Smallest <= Largest, disjoint and non-adjacent
       [pending tr]              receive time of the first accepted, still unacknowledged ack-eliciting app-data packet *)
 From Coq Require Import List ZArith Bool.
-From V Require Import Gen.Params RecvPH.Model RecvPH.ProofsHist RecvPH.ProofsAck RecvPH.ProofsDue RecvPH.ProofsDup RecvPH.ProofsMissing RecvPH.ProofsNonempty.
+From V Require Import Gen.Params RecvPH.Model RecvPH.ProofsHist RecvPH.ProofsAck RecvPH.ProofsDue RecvPH.ProofsDup RecvPH.ProofsMissing RecvPH.ProofsNonempty RecvPH.ProofsGap RecvPH.ProofsImmediate RecvPH.ProofsDupTrace.
 Import ListNotations.
 Open Scope Z_scope.
 
@@ -164,6 +164,44 @@ Theorem C07_ack_covers_flagged : forall (ops : list op) lvl now only f,
 Proof. exact ack_covers_flagged. Qed.
 Print Assumptions C07_ack_covers_flagged.
 
+(** (c) over whole handler histories. [runW] is [run] (lemma runW_fst) instrumented with one
+    watermark per space: the highest number an accepted packet pushed out of that space's history
+    through the MaxNumAckRanges limit. Every number accepted in a space is flagged by
+    IsPotentiallyDuplicate and refused by ReceivedPacket for as long as the space exists, unless it
+    is at or below that watermark — across IgnorePacketsBelow, DropPackets of other spaces, ACK
+    retrievals, Truncate and further receptions. *)
+Theorem C07_duplicate_detected_handler : forall (ops : list op) sp q x,
+  let hw := runW newHandler (fun _ => None) ops in
+  accepted (trace newHandler ops) sp q ->
+  hist_of (fst hw) sp = Some x ->
+  ~ le_opt q (snd hw sp) ->
+  is_dup x q = true /\ snd (hist_recv x q) = false.
+Proof. exact handler_duplicate_detected. Qed.
+Print Assumptions C07_duplicate_detected_handler.
+
+Theorem C07_runW_is_run : forall (ops : list op) h W, fst (runW h W ops) = fst (run h ops).
+Proof. exact runW_fst. Qed.
+Print Assumptions C07_runW_is_run.
+
+(** The watermark of a space only moves in a call made while that space tracks MaxNumAckRanges ranges. *)
+Theorem C07_watermark_only_at_limit : forall h W o sp x,
+  hist_of h sp = Some x -> hist_ok x -> Z.of_nat (length (ranges x)) < rph_MaxNumAckRanges ->
+  wstep h W o sp = W sp.
+Proof. exact wstep_unchanged. Qed.
+Print Assumptions C07_watermark_only_at_limit.
+
+Example C07_example_duplicate_handler :
+  let ops := [Recv 5 1 rph_Enc1RTT 1000 true; Ignore 3; Drop rph_EncInitial; Recv 7 1 rph_Enc1RTT 2000 false;
+              GetAck rph_Enc1RTT 3000 false; Trunc rph_Enc1RTT 1] in
+  let hw := runW newHandler (fun _ => None) ops in
+  accepted (trace newHandler ops) 2 5 /\ snd hw 2%nat = None /\
+  h_is_dup (fst hw) 5 rph_Enc1RTT = RB true.
+Proof.
+  cbv zeta. split; [| split]; try (vm_compute; reflexivity).
+  exists 1, rph_Enc1RTT, 1000, true. split; [vm_compute; tauto | reflexivity].
+Qed.
+Print Assumptions C07_example_duplicate_handler.
+
 (** REFUTED reading of (c) (DESIGN.md: "p >= Start of the lowest tracked range"): after the limit
     has dropped a range, a later lower packet opens a new lowest range below a forgotten number. *)
 Theorem C07_duplicate_lowstart_refuted :
@@ -208,6 +246,90 @@ Theorem C07_ack_queued_when_missing : forall (ops : list op) pn ecn t la l,
   aAckQueued (fst (app_recv a pn ecn t true)) = true.
 Proof. exact ack_queued_when_missing. Qed.
 Print Assumptions C07_ack_queued_when_missing.
+
+(** (b) ALL causes of an immediate ACK in the application data space, exactly. After every
+    history of calls (non-negative packet numbers; the last ACK frame, if any, has a range — true
+    under the caller discipline, C07_ack_nonempty), for an accepted ack-eliciting packet arriving
+    while no ACK is queued, an ACK is queued by this packet IF AND ONLY IF
+      - it fills a gap: the last ACK frame reported it missing ([fills_gap]: not below the ignore
+        threshold, below that frame's Largest, in none of its ranges), or
+      - it is the second unacknowledged ack-eliciting packet, or
+      - it reveals a gap ([reveals_gap]: some number that is not tracked as received lies at or above
+        the Largest of the last ACK frame and the forget threshold, at least reorderingThreshold
+        below the largest observed number and not above the highest tracked number), or
+      - it is ECN-CE marked.
+    Otherwise the alarm of C07_ack_due is armed. (Initial/Handshake: C07_ack_immediate.) *)
+Theorem C07_immediate_ack_iff : forall (ops : list op) pn ecn t,
+  pn_nonneg ops ->
+  let a := hApp (fst (run newHandler ops)) in
+  (forall la, tLastAck (aTr a) = Some la -> la <> []) ->
+  aAckQueued a = false ->
+  snd (app_recv a pn ecn t true) = Ok3 ->
+  let a' := fst (app_recv a pn ecn t true) in
+  (aAckQueued a' = true <->
+     fills_gap a' pn \/ rph_packetsBeforeAck <= aCnt a' \/ reveals_gap a' \/ ecn = rph_ECNCE).
+Proof. exact immediate_ack_iff. Qed.
+Print Assumptions C07_immediate_ack_iff.
+
+(** What HighestMissingUpTo computes on every reachable history: the highest number at or below
+    min(p, highest tracked) that is in no range, or InvalidPacketNumber if that lies below the
+    forget threshold. *)
+Theorem C07_highest_missing : forall (ops : list hop) p eT,
+  let h := fst (hrun newHist ops) in
+  top_end h = Some eT ->
+  (deletedBelow h = rph_InvalidPacketNumber \/ deletedBelow h <= p) ->
+  exists M, is_hm (ranges h) (Z.min eT p) M /\
+    highest_missing_up_to h p =
+      if negb (deletedBelow h =? rph_InvalidPacketNumber) && (M <? deletedBelow h) then rph_InvalidPacketNumber else M.
+Proof. exact (fun ops p eT => highest_missing_spec _ p eT (hrun_ok ops newHist newHist_ok)). Qed.
+Print Assumptions C07_highest_missing.
+
+(** The frame GetAckFrame returns is the tracker's [lastAck]; the packer truncates it in place
+    (op [Trunc], keeps >= 1 range). Whatever queues an ACK with the untruncated [lastAck] queues
+    it with the truncated one: the aliasing can add immediate ACKs, never suppress one. *)
+Theorem C07_truncate_never_suppresses : forall a n pn ecn t,
+  app_wf a -> (forall la, tLastAck (aTr a) = Some la -> la <> []) -> 1 <= n ->
+  aAckQueued a = false ->
+  snd (app_recv a pn ecn t true) = Ok3 ->
+  snd (app_recv (app_trunc a n) pn ecn t true) = Ok3 /\
+  (aAckQueued (fst (app_recv a pn ecn t true)) = true ->
+   aAckQueued (fst (app_recv (app_trunc a n) pn ecn t true)) = true).
+Proof. exact truncate_never_suppresses. Qed.
+Print Assumptions C07_truncate_never_suppresses.
+
+(** [app_wf] holds in every reachable state (non-negative packet numbers). *)
+Theorem C07_reachable_app_wf : forall (ops : list op), pn_nonneg ops -> app_wf (hApp (fst (run newHandler ops))).
+Proof. exact reachable_app_wf. Qed.
+Print Assumptions C07_reachable_app_wf.
+
+(** Non-vacuity: packet 0, ACK [0..0], then packet 2 reveals the gap 1; packets 0 and 2, ACK, then
+    packet 1 fills the gap. *)
+Example C07_example_reveals_gap :
+  let ops := [Recv 0 1 rph_Enc1RTT 1000 true; GetAck rph_Enc1RTT 2000 false] in
+  let a := hApp (fst (run newHandler ops)) in
+  pn_nonneg ops /\ (forall la, tLastAck (aTr a) = Some la -> la <> []) /\ aAckQueued a = false /\
+  snd (app_recv a 2 1 3000 true) = Ok3 /\ reveals_gap (fst (app_recv a 2 1 3000 true)) /\
+  aAckQueued (fst (app_recv a 2 1 3000 true)) = true.
+Proof.
+  cbv zeta. split; [| split; [| split; [| split; [| split]]]]; try (vm_compute; reflexivity).
+  - intros pn ecn lvl t ae [H | [H | []]]; inversion H; vm_compute; discriminate.
+  - vm_compute. intros la H. inversion H. discriminate.
+  - exists [(0, 0)], 0, 2, 1. repeat split; try (vm_compute; reflexivity); try (vm_compute; discriminate).
+    vm_compute. intros (s & e & [H | [H | []]] & Hr); inversion H; subst; destruct Hr as [H1 H2]; auto.
+Qed.
+Print Assumptions C07_example_reveals_gap.
+
+Example C07_example_fills_gap :
+  let ops := [Recv 0 1 rph_Enc1RTT 1000 true; Recv 2 1 rph_Enc1RTT 1500 true; GetAck rph_Enc1RTT 2000 false] in
+  let a := hApp (fst (run newHandler ops)) in
+  snd (app_recv a 1 1 3000 true) = Ok3 /\ fills_gap (fst (app_recv a 1 1 3000 true)) 1 /\
+  aAckQueued (fst (app_recv a 1 1 3000 true)) = true.
+Proof.
+  cbv zeta. split; [| split]; try (vm_compute; reflexivity).
+  exists [(2, 2); (0, 0)], 2. repeat split; try (vm_compute; reflexivity); try (vm_compute; discriminate).
+  vm_compute. intros (s & e & [H | [H | []]] & Hr); inversion H; subst; destruct Hr as [H1 H2]; auto.
+Qed.
+Print Assumptions C07_example_fills_gap.
 
 (** (b) Initial / Handshake: an accepted ack-eliciting packet makes GetAckFrame non-nil at once. *)
 Theorem C07_ack_immediate : forall h pn ecn lvl t now only sp x,
